@@ -102,4 +102,6 @@ AtsSmall == {1, 2, 16}
 ElsAll == 1..20
 AtsAll == 1..32
 AtsNoPrefixed == AtsAll \ {17, 18, 28}        \* without xlink:href, xml:space, xml:lang
+AtsNoXlink == AtsAll \ {17}
+AtsNoXml == AtsAll \ {18, 28}
 =============================================================================
